@@ -4,6 +4,7 @@ package main
 
 import (
 	"bytes"
+	"strings"
 
 	cm "zombiezen.com/go/commonmark"
 )
@@ -11,11 +12,12 @@ import (
 // inputClasses are the decidable input classes that known_findings.jsonl may refer to.
 // A class must be narrow: it describes the inputs reaching one root cause, never a property.
 var inputClasses = map[string]func(input []byte) bool{
-	"atx-backslash-before-trailing-space": atxBackslashBeforeTrailingSpace,
-	"setext-heading-root-after-definition": setextRootAfterDefinition,
-	"root-block-above-streaming-limit":     rootAboveStreamingLimit,
-	"label-at-999-limit-across-lines":      labelAtLimitAcrossLines,
-	"multi-line-inline-in-container":       multiLineInlineInContainer,
+	"atx-backslash-before-trailing-space":      atxBackslashBeforeTrailingSpace,
+	"setext-heading-root-after-definition":     setextRootAfterDefinition,
+	"root-block-above-streaming-limit":         rootAboveStreamingLimit,
+	"definition-on-indented-continuation-line": definitionOnIndentedContinuationLine,
+	"label-at-999-limit-across-lines":          labelAtLimitAcrossLines,
+	"multi-line-inline-in-container":           multiLineInlineInContainer,
 }
 
 // multiLineInlineInContainer: some inline node that Format copies verbatim from the source (everything but links, text
@@ -159,6 +161,33 @@ func atxBackslashBeforeTrailingSpace(line []byte) bool {
 		case '#', '\n', '\r':
 		default:
 			return false
+		}
+	}
+	return false
+}
+
+// definitionOnIndentedContinuationLine: some line that starts with spaces or tabs followed by '[' directly follows a
+// line containing "]:" (a link reference definition, of which this line would be the next one in the same paragraph).
+func definitionOnIndentedContinuationLine(doc []byte) bool {
+	lines := strings.FieldsFunc(strings.ReplaceAll(string(doc), "\r\n", "\n"), func(r rune) bool { return r == '\n' || r == '\r' })
+	_ = lines
+	// FieldsFunc drops empty lines, which would join lines across a blank line: split by hand instead
+	var ls []string
+	cur := ""
+	text := strings.ReplaceAll(string(doc), "\r\n", "\n")
+	for _, ch := range text {
+		if ch == '\n' || ch == '\r' {
+			ls = append(ls, cur)
+			cur = ""
+			continue
+		}
+		cur += string(ch)
+	}
+	ls = append(ls, cur)
+	for i := 1; i < len(ls); i++ {
+		t := strings.TrimLeft(ls[i], " \t")
+		if len(t) < len(ls[i]) && strings.HasPrefix(t, "[") && strings.Contains(ls[i-1], "]:") {
+			return true
 		}
 	}
 	return false
